@@ -3,12 +3,16 @@ Require Import Pearl.Base.Prelude Pearl.Storage.Model Pearl.Storage.Spec Pearl.S
                Pearl.Blob.Bytes Pearl.Storage.NoHarmProofs Pearl.Io.Trace Pearl.Io.TraceProofs.
 
 Require Pearl.Generated.Facts.
+Require Pearl.Storage.Theorems Pearl.Storage.CrashProofs.
 (* After ANY history (data operations, lifecycle, background requests, restarts with and without close,
    index removal), every blob that existed at any earlier point still exists with the same id and its
-   record list has the earlier one as a prefix ... *)
+   record list has the earlier one as a prefix ...
+   (`no_cut ops`, `s_bad s = []`: this is about what the STORAGE does. A crash may cut a blob file (OCut), and the next
+   start moves a file it cannot read back to the corrupted directory -- renamed, never modified:
+   C07_quarantined_ids_never_reused, C06_cut_inside_quarantines.) *)
 Theorem C07_append_only :
   forall (K : N) (cfg : config) (ops : list op) (s : storage) (b : blob),
-    NoActiveWhenClosed s -> In b (blobs_in_order s) ->
+    NoActiveWhenClosed s -> no_cut ops -> s_bad s = [] -> In b (blobs_in_order s) ->
     exists b', In b' (blobs_in_order (fst (run K cfg s ops))) /\ b_id b' = b_id b /\ prefix_of (b_recs b) (b_recs b').
 Proof. exact run_append_only. Qed.
 
@@ -57,6 +61,50 @@ Proof. reflexivity. Qed.
 Theorem C07_source_quarantined_ids_count : Pearl.Generated.Facts.QUARANTINED_IDS_COUNT_FOR_NEXT_ID = true.
 Proof. reflexivity. Qed.
 
+(* ================= crash damage and quarantine (Storage/CrashProofs.v) ================= *)
+Section Quarantine.
+Import Pearl.Storage.Theorems Pearl.Storage.CrashProofs.
+
+(* with crash damage anywhere in the history: a blob whose file no crash touched -- not cut by this history, not left
+   unreadable by an earlier one -- still exists, with the same id, its old records a prefix of the new ones *)
+Theorem C07_append_only_untouched_blobs :
+  forall (K : N) (cfg : config) (ops : list op) (s : storage) (b : blob),
+    NoActiveWhenClosed s ->
+    In b (blobs_in_order s) -> ~ In (b_id b) (s_bad s) -> ~ In (b_id b) (cut_ids ops) ->
+    exists b', In b' (blobs_in_order (fst (run K cfg s ops))) /\ b_id b' = b_id b /\ prefix_of (b_recs b) (b_recs b').
+Proof. exact run_append_only_uncut. Qed.
+
+(* the id of a file of the corrupted directory is never handed out again: after EVERY history (crash damage included)
+   no blob has such an id, a running storage hands out ids above all of them, and the counter of corrupted blobs is
+   the number of those files *)
+Theorem C07_quarantined_ids_never_reused :
+  forall (K : N) (cfg : config) (ops : list op),
+    let s := reach K cfg ops in
+    (forall b, In b (blobs_in_order s) -> ~ In (b_id b) (s_quar s)) /\
+    (s_open s = true -> forall q, In q (s_quar s) -> q < s_next s) /\
+    s_corrupted s = N.of_nat (length (s_quar s)).
+Proof. exact quarantined_ids_never_reused. Qed.
+
+(* nothing ever leaves the corrupted directory (the storage only moves files there) ... *)
+Theorem C07_quarantine_only_grows :
+  forall (K : N) (cfg : config) (ops ops2 : list op),
+    exists t, s_quar (reach K cfg (ops ++ ops2)) = s_quar (reach K cfg ops) ++ t.
+Proof. exact quarantine_only_grows. Qed.
+
+(* ... so an id once quarantined is the id of no blob of any later state *)
+Theorem C07_quarantined_id_stays_unused :
+  forall (K : N) (cfg : config) (ops ops2 : list op) (q : N),
+    In q (s_quar (reach K cfg ops)) -> forall b, In b (blobs_in_order (reach K cfg (ops ++ ops2))) -> b_id b <> q.
+Proof. exact quarantined_id_stays_unused. Qed.
+
+(* the invariant on ids (strictly increasing, next id above all blobs AND all quarantined files, no unreadable file in
+   the work directory of a running storage) after every history, crash damage included *)
+Theorem C07_ids_after_crash_damage :
+  forall (K : N) (cfg : config) (ops1 : list op) (id : N) (keep : option nat) (ops2 : list op),
+    IdsOk (reach K cfg (ops1 ++ OCut id keep :: ops2)).
+Proof. exact crash_history_IdsOk. Qed.
+End Quarantine.
+
 Print Assumptions C07_trace_append_at_eof.
 Print Assumptions C07_trace_no_positional_write.
 Print Assumptions C07_trace_no_recreate.
@@ -66,3 +114,8 @@ Print Assumptions C07_queries_pure.
 Print Assumptions C07_new_blob_id_fresh.
 Print Assumptions C07_source_append_reserves_then_writes.
 Print Assumptions C07_source_quarantined_ids_count.
+Print Assumptions C07_append_only_untouched_blobs.
+Print Assumptions C07_quarantined_ids_never_reused.
+Print Assumptions C07_quarantine_only_grows.
+Print Assumptions C07_quarantined_id_stays_unused.
+Print Assumptions C07_ids_after_crash_damage.
